@@ -627,12 +627,15 @@ struct GenState {
     nsnaps: usize,
     niters: usize,
     iter_snapless: usize,
+    /// the previous operation wrote a giant value (it is still in the write-ahead log)
+    just_giant: bool,
 }
 
 fn gen_value(rng: &mut StdRng, g: &mut GenState, cfg: &HistCfg, memtable: usize) -> ValSpec {
-    if cfg.giant_values && rng.gen_bool(0.04) {
+    if cfg.giant_values && rng.gen_bool(0.06) {
         let vid = g.next_vid;
         g.next_vid += 1;
+        g.just_giant = true;
         return ValSpec {
             vid,
             len: rng.gen_range(2_300_000..3_300_000),
@@ -746,6 +749,18 @@ fn gen_key(rng: &mut StdRng, g: &mut GenState, cfg: &HistCfg) -> i64 {
 }
 
 fn gen_op(rng: &mut StdRng, g: &mut GenState, cfg: &HistCfg, cur: &OptSet) -> Op {
+    if g.just_giant {
+        // every other giant value is followed at once by a close and reopen: the value has to
+        // come back from the write-ahead log
+        g.just_giant = false;
+        if rng.gen_bool(0.5) {
+            g.nsnaps = 0;
+            g.niters = 0;
+            let mut o = cur.clone();
+            o.reuse = rng.gen_bool(0.5);
+            return Op::Reopen { opts: o };
+        }
+    }
     let mut r = rng.gen_range(0..100);
     if cfg.bias_snap && rng.gen_bool(0.12) {
         r = rng.gen_range(66..83);
@@ -961,6 +976,7 @@ pub fn run_hist(
         nsnaps: 0,
         niters: 0,
         iter_snapless: 0,
+        just_giant: false,
     };
     let mut status = "ok".to_string();
     let mut detail = String::new();
